@@ -430,3 +430,28 @@ def libxml_valid(t, s, nsmap=None):
     el = etree.Element(t, nsmap=nsmap)
     el.text = s
     return _schema.validate(el)
+
+
+def civil_from_days(z):
+    """Inverse of days_from_civil."""
+    z += 719468
+    era = z // 146097
+    doe = z - era * 146097
+    yoe = (doe - doe // 1460 + doe // 36524 - doe // 146096) // 365
+    y = yoe + era * 400
+    doy = doe - (365 * yoe + yoe // 4 - yoe // 100)
+    mp = (5 * doy + 2) // 153
+    d = doy - (153 * mp + 2) // 5 + 1
+    m = mp + (3 if mp < 10 else -9)
+    return (y + (m <= 2), m, d)
+
+
+def datetime_from_timeline(ns_total, off):
+    """Integer UTC nanoseconds + offset (minutes or None) -> dateTime value tuple (local fields)."""
+    local = ns_total + (off or 0) * 60 * 10**9
+    secs, ns = divmod(local, 10**9)
+    days, rem = divmod(secs, 86400)
+    y, m, d = civil_from_days(days)
+    h, rem = divmod(rem, 3600)
+    mi, s = divmod(rem, 60)
+    return (y, m, d, h, mi, s, ns, off)
